@@ -61,7 +61,7 @@ func c07RetryBody(c *run.Ctx) {
 	s := sim.New(c.Ch, cfg, hooks)
 	c.Defer(s.Finish)
 	if s.CreateErr != nil {
-		c.Failf("C07.valid-setup-refused", "creating a table with unset blinds failed: %s: %v", cfg.String(), s.CreateErr)
+		c.Failf(c.Prop+".valid-setup-refused", "creating a table with unset blinds failed: %s: %v", cfg.String(), s.CreateErr)
 	}
 	if len(sim.LivePlayers(s.Now())) < 2 {
 		c.St.Exclude("retry_too_few_live", 1)
@@ -86,7 +86,7 @@ func c07RetryBody(c *run.Ctx) {
 	}
 	s.Drain()
 	if opened > 0 {
-		c.Failf("C07.opened-before-blinds-set", "a hand opened although blinds were never set (%+v): status %s count %d", unset, openedAt.State.Status, openedAt.State.GameCount)
+		c.Failf(c.Prop+".opened-before-blinds-set", "a hand opened although blinds were never set (%+v): status %s count %d", unset, openedAt.State.Status, openedAt.State.GameCount)
 	}
 	if held < 20 {
 		c.Inconclusive("engine did not enter the open retry")
@@ -128,7 +128,7 @@ func c07RetryBody(c *run.Ctx) {
 			script = append(script, "unset")
 		}
 		if err := s.API.UpdateBlind(b.Level, b.Ante, b.Dealer, b.SB, b.BB); err != nil {
-			c.Failf("C07.update-error", "UpdateBlind failed: %v", err)
+			c.Failf(c.Prop+".update-error", "UpdateBlind failed: %v", err)
 		}
 		c.Ch.Note("  UpdateBlind(%+v) during the open retry", b)
 		inForce = b
@@ -140,7 +140,7 @@ func c07RetryBody(c *run.Ctx) {
 	}
 	s.Drain()
 	if opened > 0 {
-		c.Failf("C07.opened-during-retry-sleep", "a hand opened %v after the gate fired with unset blinds, before the 3 s retry could have run", elapsed)
+		c.Failf(c.Prop+".opened-during-retry-sleep", "a hand opened %v after the gate fired with unset blinds, before the 3 s retry could have run", elapsed)
 	}
 	kind := script[len(script)-1]
 	s.Label("retry_final_" + kind)
@@ -165,17 +165,17 @@ func c07RetryBody(c *run.Ctx) {
 			if openedAt != nil {
 				t = openedAt
 			}
-			c.Failf("C07.opened-on-break.retry", "a hand opened while the blind level is a break (script %v after a failed first attempt): status %s, game count %d, blind %+v", script, t.State.Status, t.State.GameCount, *t.State.BlindState)
+			c.Failf(c.Prop+".opened-on-break.retry", "a hand opened while the blind level is a break (script %v after a failed first attempt): status %s, game count %d, blind %+v", script, t.State.Status, t.State.GameCount, *t.State.BlindState)
 		}
 		// control: resume and play one hand
 		if err := s.API.UpdateBlind(valid.Level+10, valid.Ante, valid.Dealer, valid.SB, valid.BB); err != nil {
-			c.Failf("C07.update-error", "UpdateBlind failed: %v", err)
+			c.Failf(c.Prop+".update-error", "UpdateBlind failed: %v", err)
 		}
 		if s.SetupGate(nil) {
 			h := s.PlayHand(s.PlanSignals(0))
 			if h.Opened != nil {
 				if h.GameCount != 1 {
-					c.Failf("C07.game-count", "first hand after the break has game count %d", h.GameCount)
+					c.Failf(c.Prop+".game-count", "first hand after the break has game count %d", h.GameCount)
 				}
 				s.Label("retry_resumed_after_break")
 			}
@@ -187,12 +187,12 @@ func c07RetryBody(c *run.Ctx) {
 			c.Inconclusive("no hand opened on the retry after blinds were set: %s", s.Stall)
 		}
 		if h.GameCount != 1 {
-			c.Failf("C07.game-count", "first hand has game count %d", h.GameCount)
+			c.Failf(c.Prop+".game-count", "first hand has game count %d", h.GameCount)
 		}
 		if h.BEHand != nil && h.BEHand.Opts != nil {
 			op := h.BEHand.Opts
 			if op.Ante != inForce.Ante || op.Blind.Dealer != inForce.Dealer || op.Blind.SB != inForce.SB || op.Blind.BB != inForce.BB {
-				c.Failf("C07.retry-blinds", "hand opened on the retry is played with ante %d blinds %+v; in force when it opened: %+v (script %v)", op.Ante, op.Blind, inForce, script)
+				c.Failf(c.Prop+".retry-blinds", "hand opened on the retry is played with ante %d blinds %+v; in force when it opened: %+v (script %v)", op.Ante, op.Blind, inForce, script)
 			}
 		}
 		s.Label("retry_opened_after_blinds_set")
@@ -202,4 +202,12 @@ func c07RetryBody(c *run.Ctx) {
 
 func TestC07Retry(t *testing.T) {
 	run.Property(t, "C07", "c07r", c07rStats, run.Scale(3, 12), c07RetryBody)
+}
+
+// The same scenarios under C12: a hand opened by the retry path is created with the blinds
+// in force when it opened (not those of the failed first attempt), and no hand opens on a break.
+var c12rStats = ev.New("C12", "c12r")
+
+func TestC12Retry(t *testing.T) {
+	run.Property(t, "C12", "c12r", c12rStats, run.Scale(3, 12), c07RetryBody)
 }
